@@ -51,6 +51,16 @@ def defs_of(f, name: str) -> List[ast.expr]:
     if isinstance(st, ast.Assign) and any(
         isinstance(t, ast.Name) and t.id == name for t in st.targets):
       out.append(st.value)
+    elif isinstance(st, ast.Assign) and len(st.targets) == 1 and isinstance(
+        st.targets[0], (ast.Tuple, ast.List)) and isinstance(
+            st.value, (ast.Tuple, ast.List)) and len(
+                st.targets[0].elts) == len(st.value.elts) and not any(
+                    isinstance(x, ast.Starred)
+                    for x in st.targets[0].elts + st.value.elts):
+      # a, b = x, y
+      for t, v in zip(st.targets[0].elts, st.value.elts):
+        if isinstance(t, ast.Name) and t.id == name:
+          out.append(v)
     elif isinstance(st, ast.AnnAssign) and isinstance(
         st.target, ast.Name) and st.target.id == name and st.value is not None:
       out.append(st.value)
@@ -222,3 +232,27 @@ def value_at(g, n: int, expr, depth: int = 4):
     n, _, expr = rd[0]
     depth -= 1
   return expr, n
+
+
+def normal_form(f):
+  """A copy of f's definition with single-assignment temporaries substituted
+  and accumulator loops written as comprehensions (fdlstatic/normalise.py):
+  for rules that look for a comprehension / a nested expression shape."""
+  nf = getattr(f, '_normal_form', None)
+  if nf is None and not f.is_lambda:
+    import copy  # pylint: disable=g-import-not-at-top
+    from fdlstatic import normalise  # pylint: disable=g-import-not-at-top
+    nf = copy.deepcopy(f.node)
+    normalise.eliminate_temps(nf)
+    if normalise.loops_to_comprehensions(nf):
+      normalise.eliminate_temps(nf)
+    f._normal_form = nf
+  return nf if nf is not None else f.node
+
+
+def both_forms(f):
+  """Nodes of f as written, then of its normal form."""
+  yield from walk_function(f.node)
+  nf = normal_form(f)
+  if nf is not f.node:
+    yield from walk_function(nf)
